@@ -1,5 +1,7 @@
 package main
 
+import "fmt"
+
 var props []propSpec
 
 func init() {
@@ -141,4 +143,63 @@ func checkC05(c *Ctx) {
 	c.floor("T-CHAN(single-sender)", 4, "4 event-path channels")
 	c.floor("T-NOSPAWN(event-path)", 8, "8 event-path functions")
 	c.floor("T-SHAPE(distribute)", 3, "3 distributors")
+}
+
+func init() {
+	props = append(props,
+		propSpec{ID: "C12", Level: "other", Run: checkC12,
+			Explanation: "Lifecycle typestate by data-flow (ShutdownCompleted deferred first; ShutdownInitiated exactly once on every path to return and never followed by another loop iteration) for every run function; a complete inventory of blocking operations (select, send, receive, lifecycle and client calls) of the root, join and client packages, each of which must fall in a justified class K1..K9; every join-wait justified by must-facts on all paths (Close/Stop on the target, its event channel seen closed, or ShutdownInitiated plus the target being built with this actor's stop channel); reply channels buffered; goroutine inventory; external calls governed by contexts cancelled at shutdown; session.stop cancels the in-flight connect.",
+			Assumptions: []string{"client List/Watch return once their context is cancelled (the property's proviso)", "bounds in seconds are not decided", "third-party panics are not considered"}},
+		propSpec{ID: "C11", Level: "other", Run: checkC11,
+			Explanation: "Stop-channel wiring (every child constructor receives the ShuttingDown() of the lifecycle its parent is shut down through and watches it), event-channel consumers exit when their parent's channel closes (table rows), Events() channels are closed exactly once by their only sender on exit, Shutdown/ShutdownAsync are requested only on the receiver's own lifecycle and every other Close forwards to the one subscription that feeds the object, which is exclusively owned (flows into exactly one wrapper).",
+			Assumptions: []string{"'eventually' relies on C12's liveness clauses and the scheduler"}},
+		propSpec{ID: "C10", Level: "other", Run: checkC10,
+			Explanation: "No stage of the event path can be blocked by a consumer: every send on a consumer-facing buffer (_subscription.outch, filterSubscription.outch, typed outch, watcher outch, session outch) is a select with default on a channel made with capacity EventBufsiz; the actors receiving the unbuffered hand-offs have no blocking operation other than their loop select (inventory); user callbacks run only on the monitor's goroutine; what a consumer receives is an in-order subsequence by C05's structure.",
+			Assumptions: []string{"which events are dropped under overflow is not decided"}})
+}
+
+var rootRels = []string{"", "join", "client"}
+
+func checkC12(c *Ctx) {
+	runs := findRunFuncs(c.P, rootRels)
+	c.check(len(runs) >= 9, "T-ONCE(ShutdownInitiated)", "run-functions", "-", fmt.Sprintf("%d run functions", len(runs)), fmt.Sprintf("found %d functions deferring ShutdownCompleted, hand-confirmed 9", len(runs)))
+	checkLifecycleOnce(c, runs)
+	sites := checkBlockingInventory(c, rootRels, runs, 60)
+	checkReplyChannels(c, rootRels)
+	kids := checkStopWiring(c)
+	checkJoinWaits(c, sites, runs, kids)
+	checkGoroutineInventory(c, rootRels, runs)
+	checkExternalCallContexts(c)
+	checkSessionFlows(c)
+	checkListGoroutines(c)
+	checkTickerTable(c)
+}
+
+func checkC11(c *Ctx) {
+	checkStopWiring(c)
+	checkCloseForwarding(c, append([]string{"", "join"}, typedRelsQuick(c)...))
+	checkSubscriptionLinearity(c)
+	checkOutchClosed(c)
+	checkSubscriptionTable(c)
+	checkFilterSubscriptionTable(c)
+	checkPublisherTable(c)
+	checkMonitorTable(c)
+	checkControllerTable(c)
+}
+
+func typedRelsQuick(c *Ctx) []string {
+	if c.Tier == "thorough" {
+		return typedRels(c)
+	}
+	return []string{"types/pod"}
+}
+
+func checkC10(c *Ctx) {
+	checkConsumerBuffers(c)
+	runs := findRunFuncs(c.P, []string{""})
+	checkBlockingInventory(c, []string{""}, runs, 55)
+	checkSubscriptionTable(c)
+	checkFSubDistribute(c)
+	checkHandlerCallers(c)
+	checkEventPathSingleSender(c)
 }
